@@ -46,11 +46,19 @@ impl Sm2PublicKey {
         compressed: bool,
         model: Sm2Model,
     ) -> Sm2Result<Vec<u8>> {
-        let cipher = self.encrypt(msg, compressed, model).unwrap();
-        let x = BigUint::from_bytes_be(&cipher[0..32]);
-        let y = BigUint::from_bytes_be(&cipher[32..64]);
-        let sm3 = &cipher[64..96];
-        let secret = &cipher[96..];
+        // GM/T 0009: SEQUENCE { x INTEGER, y INTEGER, hash OCTET STRING, ciphertext OCTET STRING }.
+        // Both coordinates of C1 are needed, so the raw ciphertext is always produced with the uncompressed point.
+        let _ = compressed;
+        let c1c3c2 = matches!(model, Sm2Model::C1C3C2);
+        let cipher = self.encrypt(msg, false, model)?;
+        let len = cipher.len();
+        let x = BigUint::from_bytes_be(&cipher[1..33]);
+        let y = BigUint::from_bytes_be(&cipher[33..65]);
+        let (sm3, secret) = if c1c3c2 {
+            (&cipher[65..97], &cipher[97..])
+        } else {
+            (&cipher[(len - 32)..], &cipher[65..(len - 32)])
+        };
         Ok(yasna::construct_der(|writer| {
             writer.write_sequence(|writer| {
                 writer.next().write_biguint(&x);
@@ -251,7 +259,7 @@ impl Sm2PrivateKey {
         compressed: bool,
         model: Sm2Model,
     ) -> Sm2Result<Vec<u8>> {
-        let (x, y, sm3, secret) = yasna::parse_der(ciphertext, |reader| {
+        let parsed = yasna::parse_der(ciphertext, |reader| {
             reader.read_sequence(|reader| {
                 let x = reader.next().read_biguint()?;
                 let y = reader.next().read_biguint()?;
@@ -259,16 +267,34 @@ impl Sm2PrivateKey {
                 let secret = reader.next().read_bytes()?;
                 return Ok((x, y, sm3, secret));
             })
-        })
-        .unwrap();
+        });
+        let (x, y, sm3, secret) = match parsed {
+            Ok(v) => v,
+            Err(_) => return Err(Sm2Error::InvalidDer),
+        };
+        // INTEGERs drop leading zero bytes: restore the fixed 32-byte coordinates
         let x = BigUint::to_bytes_be(&x);
         let y = BigUint::to_bytes_be(&y);
-        let mut cipher: Vec<u8> = vec![];
+        if x.len() > 32 || y.len() > 32 || sm3.len() != 32 {
+            return Err(Sm2Error::InvalidDer);
+        }
+        let _ = compressed;
+        let mut cipher: Vec<u8> = vec![0x04];
+        cipher.resize(1 + 32 - x.len(), 0);
         cipher.extend_from_slice(&x);
+        cipher.resize(1 + 64 - y.len(), 0);
         cipher.extend_from_slice(&y);
-        cipher.extend_from_slice(&sm3);
-        cipher.extend_from_slice(&secret);
-        self.decrypt(&cipher, compressed, model)
+        match model {
+            Sm2Model::C1C3C2 => {
+                cipher.extend_from_slice(&sm3);
+                cipher.extend_from_slice(&secret);
+            }
+            Sm2Model::C1C2C3 => {
+                cipher.extend_from_slice(&secret);
+                cipher.extend_from_slice(&sm3);
+            }
+        }
+        self.decrypt(&cipher, false, model)
     }
 
     /// Decrypt the given message.
